@@ -113,6 +113,9 @@ def derive(src_text, annotated_text):
     return {'src_lines': len(a), 'ops': ops}
 
 
+DROP = {}      # thread id -> identifiers whose hints are to be dropped (set by the driver for a retry)
+
+
 class AnchorLost(Exception):
     pass
 
@@ -163,6 +166,22 @@ def _check_header(real, new):
 
 def apply(src_text, overlay, notes=None):
     notes = notes if notes is not None else []
+    # second chance after a resolution error: ghost/proof text that mentions an identifier which no longer exists in the
+    # function is dropped (hints never add assumptions, so this can only make the proof fail, not pass)
+    import threading
+    drop = sorted(DROP.get(threading.get_ident(), ()))
+    if drop:
+        pat = re.compile(r'\b(?:' + '|'.join(re.escape(x) for x in drop) + r')\b')
+        ops = []
+        for op in overlay['ops']:
+            if op['op'] == 'insert' and pat.search(op['text']):
+                notes.append('hint dropped (mentions %s)' % ','.join(drop))
+                continue
+            if op['op'] == 'loop' and pat.search(op['spec']):
+                op = dict(op, spec='\n'.join(l for l in op['spec'].split('\n') if not pat.search(l)))
+                notes.append('loop spec lines dropped (mention %s)' % ','.join(drop))
+            ops.append(op)
+        overlay = dict(overlay, ops=ops)
     a = src_text.split('\n')
     an = [_norm(x) for x in a]
     inserts = {}
